@@ -145,6 +145,8 @@ def generate(rs: int, tier: str, index: int) -> dict:
             st["abort_first"] = c.sub("abort").below(100000)  # the same request, made once before and aborted part-way
         if kind == "pickle":
             st["protocol"] = c.below(6)
+            st["as_array"] = c.sub("arr").chance(0.5)
+            st["composed"] = c.sub("arr").chance(0.4)
         if kind == "text":
             st.update({"target": c.choice(["simtext", "simbytes", "simbytes", "path_str", "pathlike"]), "locale": c.choice(["utf-8", "latin-1", "ascii"]),
                        "fault": c.choice([None, None, None, "write"]), "u": c.u64(),
@@ -445,6 +447,22 @@ class Runner:
                 elif kind == "pickle":
                     res = pickle.loads(pickle.dumps(p, protocol=st["protocol"]))
                     want = m
+                    if st.get("as_array") or st.get("composed"):
+                        # the same monomials inside an array of two elements (m and 2*m): built from attributes, or composed
+                        # from two scalar polynomials of which the second stores its terms in the opposite order
+                        keys = list(m)
+                        if st.get("composed"):
+                            second = _build({k: 2 * m[k] for k in keys[::-1]}, names)
+                            arr = numpoly.polynomial([p, second])
+                        else:
+                            arr = numpoly.polynomial_from_attributes(numpy.array([list(k) for k in keys], dtype=numpy.int64).reshape(len(keys), nv),
+                                                                     [numpy.array([m[k], 2 * m[k]]) for k in keys], tuple(names), retain_coefficients=True, retain_names=True)
+                        back = pickle.loads(pickle.dumps(arr, protocol=st["protocol"])) if st.get("as_array") else arr
+                        for pos, factor in ((0, 1), (1, 2)):
+                            have_el = _read(back[pos], names)
+                            want_el = {k: factor * v for k, v in m.items()}
+                            if have_el != want_el:
+                                raise core.Violation("monomial-set", kind, f"stage {idx} {'pickled ' if st.get('as_array') else ''}{'composed ' if st.get('composed') else ''}array element {pos}: got {have_el}, expected {want_el}", {"stage": kind, "array": True})
                 elif kind == "text":
                     env_tag = f"{st['target']}/{st['locale']}/{st.get('encoding')}"
                     res = self._text_stage(p, st)
@@ -457,6 +475,10 @@ class Runner:
                     raise core.HarnessError(kind)
             except core.HarnessError:
                 raise
+            except core.Violation as v:
+                self.bump("decided")
+                self.violate(v.clause, kind, sid, v.detail, v.where or {"stage": kind})
+                return
             except Exception as exc:  # noqa: BLE001
                 if not (core.through_numpoly(exc, NUMPOLY_DIR) or isinstance(exc, (UnicodeError, ValueError, KeyError, TypeError, OverflowError))):
                     raise
